@@ -20,3 +20,10 @@ package probdist
 //@   requires w != nil && seed != nil && w.minValue < w.maxValue
 //@   modifies w.values, w.weights, w.alias, w.prob
 //@   ensures wdInv(w)
+
+//@ func New(seed, min, max, biased) (w)
+//@   serves C12 C09
+//@   nobody constructor; table generation is the subject of C12
+//@   panics_if max <= min
+//@   requires seed != nil
+//@   ensures w != nil && fresh(w) && wdInv(w) && w.minValue == min && w.maxValue == max
